@@ -411,7 +411,8 @@ fn run_job(bin: &str, w: &mut Option<Worker>, job: &Job, alpha_len: usize) -> Jo
                 // `k` is the absolute index within the job's enumeration
                 total.deaths.push((k, status));
                 total.count += 1;
-                start = k + 1 - job_base(job);
+                // (never backwards, whatever index a dying worker reported)
+                start = (k + 1).saturating_sub(job_base(job)).max(start + 1);
                 if DEATHS.fetch_add(1, Ordering::Relaxed) + 1 >= DEATH_CAP {
                     break;
                 }
@@ -442,6 +443,14 @@ pub fn run_jobs(bin: &str, jobs: &[Job], alpha_len: usize) -> Vec<JobOut> {
                     }
                     let o = run_job(bin, &mut w, &jobs[i], alpha_len);
                     out.lock().unwrap().push((i, o));
+                    // node-sweep jobs run hundreds of simulated nodes each: a fresh worker per job keeps the
+                    // worker's footprint (1 GiB address-space limit) independent of how many jobs there are
+                    if matches!(&jobs[i], Job::File { kind: 'N', .. }) {
+                        if let Some(mut old) = w.take() {
+                            drop(old.stdin);
+                            let _ = old.child.wait();
+                        }
+                    }
                 }
                 if let Some(mut w) = w {
                     drop(w.stdin);
@@ -870,6 +879,7 @@ pub fn node_job(maxlen: &str, from: u64, to: u64, careful: bool) -> String {
     let mut ok = 0u64;
     let mut bad = 0u64;
     use std::io::Write;
+    NODE_CURRENT.store(from, Ordering::Relaxed);
     for k in from..to.min(recs.len() as u64) {
         if careful {
             let mut o = std::io::stdout().lock();
